@@ -443,6 +443,7 @@ var fmtMinimalS = []string{
 	`"""d""" schema { query: Query } type Query { f: Int }`,                             // R13e (no block printed at all)
 	`type Query { f: Int }`,
 	`schema { query: Query mutation: M } type Query { f: Int } type M { g: Int }`,         // block printed without `query: Query`: the reloaded schema has no query root
+	`schema { query: Q mutation: Mutation } type Q { f: Int } type Mutation { g: Int }`,   // block printed without `mutation: Mutation`: the reloaded schema has no mutation root
 	`schema { query: Query subscription: S } type Query { f: Int } type S { g: Int } type Mutation { h: Int }`,
 	`"a \"\"\" b" type Query { f: Int }`,                                               // R13a
 	`"  lead\n" type Query { f: Int }`,                                                   // R13b
